@@ -332,6 +332,18 @@ func init() {
 		}
 		return m.ctx.Or(conds...)
 	})
+	reg("Written", func(m *Machine, fn *ssa.Function, a []Value) Value {
+		name := m.argStr(a[0])
+		for _, w := range m.writes {
+			if w.cell.Col == name {
+				if len(m.changedWhere) < 8 {
+					m.changedWhere = append(m.changedWhere, w.where+" writes "+w.cell.T.String())
+				}
+				return m.ctx.True
+			}
+		}
+		return m.ctx.False
+	})
 	reg("ChangedWhere", func(m *Machine, fn *ssa.Function, a []Value) Value {
 		s := ""
 		for i, w := range m.changedWhere {
